@@ -12,6 +12,17 @@ def p_pure(cx, rule, inst, roots, extra_allow_crates=(), stop=()):
     no pointer->integer cast, no callee with ambient effects in the workspace call closure.  `stop`: last names of
     functions that are not entered (the random samplers: the rest of a randomised operation must still be stateless)"""
     seen, ext = cx.F.closure(roots)
+    if not stop:
+        # resolve calls through workspace traits (generic helpers) to all their implementations
+        more = [i_ for e_ in list(ext) for i_ in _trait_impls(cx.F, e_)]
+        while more:
+            ext -= {e_ for e_ in ext if _trait_impls(cx.F, e_)}
+            s2, e2 = cx.F.closure(more)
+            seen |= s2
+            ext |= e2
+            more = [i_ for e_ in list(ext) for i_ in _trait_impls(cx.F, e_) if i_ not in seen]
+            if not more:
+                ext -= {e_ for e_ in ext if _trait_impls(cx.F, e_)}
     if stop:
         seen, ext = set(), set()
         work = list(roots)
@@ -21,7 +32,11 @@ def p_pure(cx, rule, inst, roots, extra_allow_crates=(), stop=()):
                 continue
             f = cx.F.fns.get(n)
             if f is None:
-                ext.add(n)
+                impls = _trait_impls(cx.F, n)
+                if impls:
+                    work += impls          # an unresolved call of a workspace trait method: every implementation may run
+                else:
+                    ext.add(n)
                 continue
             seen.add(n)
             for b, t in f.calls():
@@ -63,6 +78,18 @@ def p_pure(cx, rule, inst, roots, extra_allow_crates=(), stop=()):
         cx.F.fns[roots[0]].loc() if roots and roots[0] in cx.F.fns else '', {'closure': sorted(seen), 'external': sorted(ext)})
     cx.stat(inst + '_closure_fns', len(seen))
     return seen, ext
+
+
+def _trait_impls(F, name):
+    """workspace functions that implement the trait method `krate::path::Trait::method` (a call the compiler could not resolve
+    to one implementation because the receiver type is a generic parameter)"""
+    if not name.startswith('gm_'):
+        return []
+    parts = name.split('::')
+    if len(parts) < 3:
+        return []
+    trait, meth = parts[-2], parts[-1]
+    return [n for n in F.fns if n.endswith('::' + meth) and ('::%s for ' % trait) in n]
 
 
 def consts_in(rv):
